@@ -17,6 +17,7 @@ mod flush_crash;
 mod executor;
 mod ttl_ops;
 mod conn;
+mod conn_loop;
 mod shard_actor;
 mod sync_keys;
 mod sds_codec;
@@ -72,7 +73,7 @@ fn main() {
         "lattice" => lattice::search(&pid, &oid, seed),
         "resp_codec" | "resp_spec" => resp::search(&pid, &oid, seed),
         "routing" | "fanout" => routing::search(&pid, &oid, seed),
-        "digest" | "digest_state" => digest::search(&pid, &oid, seed),
+        "digest" | "digest_state" | "digest_value" => digest::search(&pid, &oid, seed),
         // wal_files = the multi-file half of the WAL (truncate_before, recover_all_entries, entries_after): same driver, rotator battery first
         "wal_codec" | "wal_files" => wal_codec::search(&pid, &oid, seed),
         "wal_rotator" => wal_rotator::search(&pid, &oid, seed),
@@ -86,6 +87,7 @@ fn main() {
         "ttl_ops" => ttl_ops::search(&pid, &oid, seed),
         "err_frame" => executor::search_err(&pid, &oid, seed),
         "conn" | "batch_collect" => conn::search(&pid, &oid, seed),
+        "conn_loop" => conn_loop::search(&pid, &oid, seed),
         "conn_txn" | "resp_equal" => conn::search_txn(&pid, &oid, seed),
         "shard_actor" => shard_actor::search(&pid, &oid, seed),
         "sync_keys" => sync_keys::search(&pid, &oid, seed),
